@@ -196,7 +196,21 @@ struct TypeGen {
             int n = rng.range(1, 3);
             for (int i = 0; i < n; ++i) {
                 t += (i ? ", " : "");
-                t += rng.chance(1, 8) ? std::to_string(rng.below(100)) : type(depth + 1);
+                if (rng.chance(1, 6)) {
+                    // a non-type argument, as the demangler prints it
+                    static const char* const LIT[] = {"", "ul", "u", "l", "ll", "ull", "", ""};
+                    int kind = (int)rng.below(10);
+                    if (kind == 0)
+                        t += rng.chance(1, 2) ? "true" : "false";
+                    else if (kind == 1)
+                        t += "(char)" + std::to_string(32 + rng.below(90));
+                    else if (kind == 2)
+                        t += "-" + std::to_string(1 + rng.below(50)) + (rng.chance(1, 2) ? "l" : "");
+                    else
+                        t += std::to_string(rng.below(100000)) + LIT[rng.below(8)];
+                } else {
+                    t += type(depth + 1);
+                }
             }
             t += t.back() == '>' ? " >" : ">";
             break;
@@ -207,10 +221,14 @@ struct TypeGen {
             for (int i = 0; i < n; ++i)
                 t += (i ? ", " : "") + type(depth + 1);
             t += ")";
+            if (rng.chance(1, 4))
+                t += " noexcept";
             return t;
         }
         case 7: // pointer to function
             t = type(depth + 1) + " (*)(" + type(depth + 1) + ")";
+            if (rng.chance(1, 4))
+                t += " noexcept";
             return t;
         default:
             t = "decltype(nullptr)";
